@@ -19,8 +19,8 @@ func init() {
 	Props["C18"] = Prop{
 		Title: "The slog handler reproduces slog's attribute and group semantics",
 		Fn:    checkC18,
-		Explanation: "Decides the kind table of convertAttrToField against the slog.Kind constants of the installed log/slog (each explicit arm uses the accessor of its own kind - a mismatched accessor panics inside slog - and a zap constructor of the accessor's result type, with the attribute's key; LogValuers are resolved and re-converted; every other kind reaches the Any fallback; the empty-Attr test comes first), the monotone threshold form of the level map shared by Enabled and Handle, the slog.Handler contract clauses that are visible in the code shape (empty group name returns the receiver; group attribute without attributes → Skip; empty key → Inline), the sibling agreement of Handle and WithAttrs on when pending groups are emitted (guarded by exactly field != Skip and an emitted-state flag - a captured cell or an SSA register, of either polarity - that is initialised to 'pending', flips on the emitting path and nowhere else; cleared in the derived handler iff emitted), derivation purity (no store through the receiver, no append onto the receiver's slice), and handled-iff-Check-accepts. " +
-			"NOT decided: full tree semantics against a reference model of slog.",
+		Explanation: "Decides, by exploring every path of convertAttrToField with the attribute's kind fixed to each slog.Kind constant of the installed log/slog (and one value that is no constant): whenever the tests made establish that the Attr is empty, Skip is returned; each scalar kind is read with the accessor of its own kind (another accessor panics inside slog) and handed to the zap constructor of exactly that type under the attribute's key; a LogValuer is resolved and converted again under the same key; kinds without an arm reach zap.Any only after the empty Attr was excluded; a group is skipped once known to be empty and is inlined (empty key) or converted to Object(key, group) only after it was established non-empty and its key tested. The pending-group protocol of Handle and WithAttrs is decided by exploring both (helpers and the record.Attrs callback inline, up to three attributes): the groups opened by WithGroup are emitted exactly once, immediately before the first field that is not Skip, only when groups are pending; WithAttrs clears the clone's pending groups exactly when it emitted them and Handle never touches them. Further: the level map evaluated on 4 100 slog levels (monotone, anchors, range) and shared by Enabled and Handle; WithGroup(\"\") returns the receiver; derivation purity (no store through the receiver, no uncapped append onto its slices, every setting carried over); handled iff Core.Check accepts. " +
+			"NOT decided: full tree semantics against a reference model of slog; records with more than three attributes beyond the per-attribute step.",
 		Assumptions: commonAssumptions,
 	}
 }
